@@ -161,6 +161,10 @@ func (s *Signature) Sign(rand io.Reader, signer Signer, protected cbor.RawMessag
 	if err != nil {
 		return err
 	}
+	if len(sig) == 0 {
+		// a signer that reports success must have produced a signature
+		return ErrEmptySignature
+	}
 
 	s.Signature = sig
 	return nil
